@@ -46,6 +46,10 @@ class Run(object):
         return 'EXC:PhaseBoom', None
       if run_if == 'false':
         return 'SKIP', None
+      if run_if == 'once':
+        k = self.counts['runif:' + name] = self.counts.get('runif:' + name, 0) + 1
+        if k > 1:
+          return 'SKIP', None
     n = self.counts[name] = self.counts.get(name, 0) + 1
     self.calls.append((name, n))
     r = per_inv(beh.get('ret', ['ok']), n - 1)
